@@ -204,6 +204,7 @@ func touchesFiles(ld *Loader, db *ContractDB, fn *ssa.Function, files map[string
 }
 
 func collect(f *flags, overlay map[string][]byte) (*propWork, error) {
+	richTable = map[*Frame]map[*ssa.Alloc]Val{} // per-run side table (the self-test calls collect once per mutant)
 	db, err := LoadContracts(f.repo, f.verif+"/assumed")
 	if err != nil {
 		return nil, err
